@@ -13,6 +13,7 @@ import (
 	"io"
 	"os"
 	"os/exec"
+	"runtime"
 	"strings"
 	"sync"
 	"syscall"
@@ -27,12 +28,14 @@ const (
 	jobProbe    = 2 // classes of a case (shrinker)
 	jobConfirm  = 3 // like single, but a watchdog hit is a violation (run alone)
 	jobBatch    = 4 // several single jobs answered with one sink (amortises the round trip)
+	jobGrowth   = 5 // C05 growth oracle: a ladder of parameters of one generator family (growth.go)
 )
 
 type job struct {
 	Kind     int    `json:"k"`
 	C        Case   `json:"c"`
 	Batch    []Case `json:"b,omitempty"`
+	Ladder   []int  `json:"l,omitempty"`
 	Seed     uint64 `json:"s,omitempty"`
 	Thorough bool   `json:"t,omitempty"`
 	Verbose  bool   `json:"v,omitempty"`
@@ -75,11 +78,17 @@ func childMain() {
 					s.single(c, false)
 				}
 			case jobConfirm:
+				// one P: the CPU time of the process is then the time of one thread (decoder + collector
+				// interleaved), so "consumed the budget in CPU time" cannot be reached faster than in wall time by
+				// a parallel garbage collector, and a loaded machine stretches the wall time, not the CPU time
+				runtime.GOMAXPROCS(1)
 				s.single(j.C, true)
 			case jobProbe:
 				s.probe(j.C)
 			case jobSchedule:
 				s.schedule(j.C, vh.NewRng(j.Seed), j.Thorough, j.Verbose)
+			case jobGrowth:
+				s.growth(j.C, j.Ladder, j.Verbose)
 			}
 			b, _ := json.Marshal(s)
 			w.Write(b)
@@ -163,6 +172,8 @@ func jobTimeout(j job) time.Duration {
 		return d
 	case jobConfirm:
 		return 12*budget(len(j.C.Input)) + 2*time.Minute
+	case jobGrowth:
+		return time.Duration(4*len(j.Ladder))*budget(0) + 2*time.Minute
 	}
 	return 4*budget(len(j.C.Input)) + 2*time.Minute
 }
